@@ -1157,17 +1157,42 @@ func (x *Exec) ifaceAccessor(recv *Value, m *types.Func, args []*Value) *Value {
 		return v
 	}
 	x.trusted["interface method "+shortType(it)+"."+m.Name()+" is a pure, deterministic accessor of its receiver"] = true
+	var out *Value
 	switch sig.Results().Len() {
 	case 0:
 		return &Value{K: KTuple}
 	case 1:
-		return mk(sig.Results().At(0).Type(), 0)
+		out = mk(sig.Results().At(0).Type(), 0)
+	default:
+		out = &Value{K: KTuple, T: sig.Results()}
+		for i := 0; i < sig.Results().Len(); i++ {
+			out.Fields = append(out.Fields, mk(sig.Results().At(i).Type(), i))
+		}
 	}
-	v := &Value{K: KTuple, T: sig.Results()}
-	for i := 0; i < sig.Results().Len(); i++ {
-		v.Fields = append(v.Fields, mk(sig.Results().At(i).Type(), i))
+	// assumed law of the interface method (to be verified on the implementations)
+	mkey := shortType(it) + "." + m.Name()
+	if law, ok := x.db.MethodLaws[mkey]; ok && x.accessorState != nil && !termsHaveBoundVar(ts) && !x.inLaw[mkey] {
+		x.inLaw[mkey] = true
+		vars := map[string]*Value{"recv": recv, "result": out}
+		for i, a := range args {
+			vars[fmt.Sprintf("arg%d", i)] = a
+		}
+		env := &SpecEnv{x: x, vars: vars, cur: x.accessorState, old: x.accessorState, pkg: m.Pkg()}
+		func() {
+			defer func() {
+				if r := recover(); r != nil {
+					if _, isSpec := r.(specErr); !isSpec {
+						delete(x.inLaw, mkey)
+						panic(r)
+					}
+				}
+			}()
+			x.facts = append(x.facts, env.evalBool(law))
+		}()
+		delete(x.inLaw, mkey)
+		x.trusted["law of "+mkey+": "+law.String()] = true
 	}
-	return v
+	return out
 }
 
 func (env *SpecEnv) loopOf(n int) *loopInfo {
